@@ -1,7 +1,123 @@
-(* C10 - placeholder while the model and the correspondence are brought up. *)
-From Verif Require Import Lib.Bytes StateRes.Event StateRes.V2.
+(* C10 - State resolution returns the state the room version's algorithm defines.
 
-Theorem v21_starts_empty_stub : apply_events [] [] = [].
-Proof. reflexivity. Qed.
+   The model (StateRes/{Event,Kahn,V2,V1,Entry}.v) is the code as it is after the repairs F7,
+   F8, F12 (tied to it by ./check C10: every stage and every entry point, on generated room
+   histories).  StateRes/V2Spec.v states the stages in set / relation style from the
+   specification text plus DESIGN.md 6.2; its executable readings are oracles on the
+   implementation's split and auth difference (incl. the v2.1 conflicted subgraph).
+   Proved here, for ALL inputs and every [allowed] / [rejected]:
+     - v2.1 starts from the empty state, v2 from the unconflicted state in power order;
+     - the unconflicted events are re-applied last, so an unconflicted event is in the result;
+     - the power ordering (6.2 r1-r3, Kahn from the leaves) of a repeat-free acyclic list is a
+       topological permutation for every sender-power assignment;
+     - the mainline ordering is a permutation sorted by (position, steps, timestamp, ID);
+     - the partial state is a map: the result has at most one event per key.
+   Not proved (covered by the correspondence and the oracles only): that the model's split /
+   auth-difference walk / control-set closure equal their V2Spec definitions, and the v1
+   resolver's refinement r7. *)
+From Coq Require Import Permutation Sorted.
+From Verif Require Import Lib.Bytes StateRes.Event StateRes.Kahn StateRes.V2 StateRes.V1 StateRes.Entry
+     StateRes.SortProofs StateRes.KahnProofs StateRes.OrderProofs StateRes.ResultProofs StateRes.CmpProofs.
 
-Print Assumptions v21_starts_empty_stub.
+Section C10.
+  Variable allowed : event -> list event -> bool.
+  Variable rejected : bytes -> bool.
+  Variable shE : list event -> list event.
+  Variable shP : list pwrap -> list pwrap.
+  Variable shG : list (tkey * list event) -> list (tkey * list event).
+  Hypothesis shP_perm : forall l, Permutation (shP l) l.
+  Variable priv : bool.
+  Variable cl ud : Z.
+
+  Notation resolve_new := (resolve_v2_new allowed rejected shE shP shG priv cl ud).
+  Notation tail := (resolve_tail allowed rejected shP priv cl ud).
+
+  (* v2.1: the iterative auth checks start from the empty partial state *)
+  Theorem v21_starts_empty sets auth_events :
+    resolve_new true sets auth_events = mkR [] [] \/
+    exists authmap control others unconflicted,
+      resolve_new true sets auth_events = tail authmap (mkR [] []) control others unconflicted.
+  Proof.
+    unfold resolve_v2_new.
+    destruct (fst (split_conflicted shG false sets)) eqn:E1;
+      destruct (snd (split_conflicted shG false sets)) eqn:E2;
+      destruct auth_events eqn:E3; try (left; reflexivity); right; do 4 eexists; reflexivity.
+  Qed.
+
+  (* v2: they start from the unconflicted events applied in power order, without auth checks *)
+  Theorem v2_starts_from_unconflicted sets auth_events :
+    resolve_new false sets auth_events = mkR [] [] \/
+    exists authmap control others unconflicted,
+      Permutation unconflicted (power_order shP priv cl ud authmap None (snd (split_conflicted shG false sets))) /\
+      resolve_new false sets auth_events
+      = tail authmap (mkR (apply_events [] unconflicted) []) control others unconflicted.
+  Proof.
+    unfold resolve_v2_new.
+    destruct (fst (split_conflicted shG false sets)) eqn:E1;
+      destruct (snd (split_conflicted shG false sets)) eqn:E2;
+      destruct auth_events eqn:E3; try (left; reflexivity); right; do 4 eexists; (split; [reflexivity|reflexivity]).
+  Qed.
+
+  (* the unconflicted events are applied again after all conflicted events *)
+  Theorem unconflicted_reapplied_last authmap r0 control others unconflicted :
+    exists r2, r_state (tail authmap r0 control others unconflicted) = apply_events (r_state r2) unconflicted.
+  Proof. apply unconflicted_applied_last. Qed.
+
+  (* ... so an unconflicted event (one per key, as the split produces them) is in the result *)
+  Theorem unconflicted_in_result authmap r0 control others unconflicted e k :
+    In e unconflicted -> event_tkey e = Some k ->
+    (forall e', In e' unconflicted -> event_tkey e' = Some k -> e' = e) ->
+    In e (result_events (tail authmap r0 control others unconflicted)).
+  Proof. apply unconflicted_event_kept. Qed.
+
+  (* 6.2 r1: the power ordering of a repeat-free acyclic list is a permutation in which every
+     event follows the auth events it names, whatever the senders' power levels are *)
+  Theorem power_order_is_topological authmap create l :
+    NoDup (ids_of l) -> acyclic e_auth l ->
+    topological_permutation e_auth l (power_order shP priv cl ud authmap create l).
+  Proof. apply power_order_topological; assumption. Qed.
+
+  (* 6.2 r4: the mainline ordering rearranges its input and sorts it by the mainline key *)
+  Theorem mainline_order_sorted authmap resolved_power l :
+    Permutation (mainline_order authmap resolved_power l) l /\
+    exists ws, mainline_order authmap resolved_power l = map ow_ev ws /\
+               Sorted (fun a b => ow_cmp a b <> Gt) ws.
+  Proof.
+    unfold mainline_order. split.
+    - set (pos := mainline_positions _).
+      rewrite ssort_perm. rewrite map_map. rewrite (map_ext _ (fun e => e)); [rewrite map_id; reflexivity|].
+      intro e. reflexivity.
+    - eexists. split; [reflexivity|].
+      apply StronglySorted_Sorted. apply ssort_sorted.
+      + apply (good_antisym _ _ ow_cmp_good).
+      + apply (good_le_trans _ _ ow_cmp_good).
+  Qed.
+End C10.
+
+(* the resolved state is a map: at most one event per (type, state_key), for every auth-rule
+   oracle, rejected-event oracle and map iteration order *)
+Theorem result_is_a_state_map allowed rejected shE shP shG priv cl ud v21 sets auth_events e1 e2 :
+  let result := result_events (resolve_v2_new allowed rejected shE shP shG priv cl ud v21 sets auth_events) in
+  In e1 result -> In e2 result -> event_tkey e1 = event_tkey e2 -> e1 = e2.
+Proof. intros result. apply smap_wf_unique. apply resolve_v2_new_wf. Qed.
+
+(* non-vacuity: two state sets that disagree on the topic; the auth rules allow everything *)
+Definition c10_ev (id : bytes) (ty : bytes) (auth : list bytes) (ts : Z) : event :=
+  mkEvent id ty (Some []) (bs "@u:h") ts 1%Z auth auth [] (bs "{}").
+Definition c10_create := c10_ev (bs "$C") t_create [] 1%Z.
+Definition c10_t1 := c10_ev (bs "$T1") (bs "m.room.topic") [bs "$C"] 2%Z.
+Definition c10_t2 := c10_ev (bs "$T2") (bs "m.room.topic") [bs "$C"] 3%Z.
+
+Example resolve_concrete :
+  ids_of (result_events (resolve_v2_new (fun _ _ => true) (fun _ => false) (fun l => l) (fun l => l) (fun l => l)
+                                        false 0%Z 0%Z true [[c10_create; c10_t1]; [c10_create; c10_t2]] [c10_create]))
+  = [bs "$T2"; bs "$C"].
+Proof. vm_compute. reflexivity. Qed.
+
+Print Assumptions v21_starts_empty.
+Print Assumptions v2_starts_from_unconflicted.
+Print Assumptions unconflicted_reapplied_last.
+Print Assumptions unconflicted_in_result.
+Print Assumptions power_order_is_topological.
+Print Assumptions mainline_order_sorted.
+Print Assumptions result_is_a_state_map.
